@@ -90,6 +90,12 @@ def njRun : Nat → NJ α → NJ α
   | 0, s => s
   | fuel + 1, s => if s.pool.length > 1 then njRun fuel (njStep s) else s
 
+/-- the state at the head of every pass of `while n > 1`, in order: what a tracing `node_factory` sees at the moment the new node of
+that pass is created (pool, `_nj_xsub` of every member; the pair picked in that pass is `njPick` of the state) -/
+def njStates : Nat → NJ α → List (NJ α)
+  | 0, _ => []
+  | fuel + 1, s => if s.pool.length > 1 then s :: njStates fuel (njStep s) else []
+
 /-- `nj_tree()` on an `n × n` matrix given in pool order -/
 def njTree (n : Nat) (d : Nat → Nat → α) : Option (NT α) :=
   let s := njRun n (njInit n d)
@@ -142,6 +148,12 @@ def upStep (s : UP α) : UP α :=
 def upRun : Nat → UP α → UP α
   | 0, s => s
   | fuel + 1, s => if s.pool.length > 1 then upRun fuel (upStep s) else s
+
+/-- the state at the head of every pass of `while len(node_pool) > 1` (pool, `_upgma_distance_from_tip` and cluster size of every
+member; the pair picked in that pass is `upPick` of the state) -/
+def upStates : Nat → UP α → List (UP α)
+  | 0, _ => []
+  | fuel + 1, s => if s.pool.length > 1 then s :: upStates fuel (upStep s) else []
 
 def upgmaTree (n : Nat) (d : Nat → Nat → α) : Option (NT α) :=
   let s := upRun n (upInit n d)
